@@ -445,6 +445,34 @@ fn main() {
                 let env = BDDEnv::<NamedSymbol>::new();
                 run_op_full(&env, &tok[1..], false, false)
             }
+            "hash2env" => {
+                // the same function built by the library in two environments: the diagrams must compare and hash equal
+                let k: usize = tok[1].parse().unwrap();
+                let ids: Vec<usize> = tok[2].split(',').map(|x| x.parse().unwrap()).collect();
+                let tt = parse_tt(tok[3]);
+                let build = |env: &BDDEnv<NamedSymbol>| -> N {
+                    // disjunction of minterms through the public operations
+                    let mut acc = env.mk_const(false);
+                    for (j, b) in tt.iter().enumerate() {
+                        if *b {
+                            let mut term = env.mk_const(true);
+                            for i in 0..k {
+                                let v = env.var(sym(ids[i]));
+                                let lit = if (j >> (k - 1 - i)) & 1 == 1 { v } else { env.not(v) };
+                                term = env.and(term, lit);
+                            }
+                            acc = env.or(acc, term);
+                        }
+                    }
+                    acc
+                };
+                let e1 = BDDEnv::<NamedSymbol>::new();
+                let e2 = BDDEnv::<NamedSymbol>::new();
+                let _noise = e2.var(sym(ids[0] + 1000));
+                let a = build(&e1);
+                let b = build(&e2);
+                format!("ok eq={} hasheq={}", if a == b { 1 } else { 0 }, if a.get_hash() == b.get_hash() { 1 } else { 0 })
+            }
             "symhash" => {
                 // two symbols with the same id and different names: equal (by the crate's Eq) values must hash equally
                 let id: usize = tok[1].parse().unwrap();
